@@ -122,6 +122,7 @@ type VC struct {
 	defCache    map[string]defEntry
 	factCache   map[string]int
 	writeLog    []writeRec
+	readLogs    []*[]readRec // active macro expansions: which state components their bodies read
 	catchStack  []*catchCtx // functions with a deferred recover() that are being executed (innermost last)
 	recoverVals []string    // what recover() returns in the deferred closure being executed
 	nextFreeVars []Val      // bindings of the closure about to be executed
@@ -282,9 +283,23 @@ func heapKeyField(si *structInfo, i int) string { return "H!" + si.sort + "!" + 
 func heapKeyElem(sort string) string            { return "E!" + sanitize(sort) }
 func heapKeyCell(sort string) string            { return "C!" + sanitize(sort) }
 
+type readRec struct{ tag, term, sort string }
+
+func (vc *VC) logRead(tag, term, sort string) {
+	for _, l := range vc.readLogs {
+		*l = append(*l, readRec{tag, term, sort})
+	}
+}
+
 func (vc *VC) heapGet(st *State, key, sort string) string {
 	if t, ok := st.heaps[key]; ok {
+		if len(vc.readLogs) > 0 {
+			vc.logRead("H:"+key, t, vc.heapSorts[key])
+		}
 		return t
+	}
+	if len(vc.readLogs) > 0 {
+		defer func() { vc.logRead("H:"+key, key+"~0", sort) }()
 	}
 	vc.heapSorts[key] = sort
 	name := key + "~0"
@@ -324,7 +339,13 @@ func (vc *VC) heapHavoc(st *State, key string) {
 
 func (vc *VC) ghostGet(st *State, name string) string {
 	if t, ok := st.ghosts[name]; ok {
+		if len(vc.readLogs) > 0 {
+			vc.logRead("G:"+name, t, vc.eng.specs.ghostSort[name])
+		}
 		return t
+	}
+	if len(vc.readLogs) > 0 {
+		defer func() { vc.logRead("G:"+name, "G!"+sanitize(name)+"~0", vc.eng.specs.ghostSort[name]) }()
 	}
 	sort := vc.eng.specs.ghostSort[name]
 	n := "G!" + sanitize(name) + "~0"
